@@ -381,6 +381,50 @@ fn edge_probes() -> Vec<(String, FileSet)> {
         t += &format!("<xs:complexType name=\"T{n}\"><xs:sequence/></xs:complexType></xs:schema>");
         v.push(("edge/40-forward-extension-with-typed-members".to_string(), FileSet::single("fwd2.xsd", &t)));
     }
+    // forward references into a namespace that has no components (a dangling prefix), doubled
+    {
+        let n = 24;
+        let mut t = String::from("<xs:schema xmlns:xs=\"http://www.w3.org/2001/XMLSchema\" xmlns:t=\"urn:e\" xmlns:o=\"urn:other\" targetNamespace=\"urn:e\">");
+        for i in 0..n {
+            t += &format!("<xs:element name=\"e{i}\"><xs:complexType><xs:sequence><xs:element ref=\"o:e{0}\"/><xs:element ref=\"o:e{0}\" minOccurs=\"0\"/></xs:sequence></xs:complexType></xs:element>", i + 1);
+        }
+        t += &format!("<xs:element name=\"e{n}\" type=\"xs:string\"/></xs:schema>");
+        v.push(("edge/24-doubled-forward-references-into-a-foreign-namespace".to_string(), FileSet::single("fwd3.xsd", &t)));
+    }
+    // an element and a group (or a type) of one name at every level of a forward chain, each
+    // referring to both components of the next level
+    for (label, second_open, second_close) in [("group", "<xs:group name=\"L{i}\"><xs:sequence><xs:group ref=\"t:L{n}\"/><xs:element ref=\"t:L{n}\"/></xs:sequence>", "</xs:group>"), ("type", "<xs:complexType name=\"L{i}\"><xs:sequence><xs:element name=\"a\" type=\"t:L{n}\"/><xs:element ref=\"t:L{n}\"/></xs:sequence>", "</xs:complexType>")] {
+        let levels = 40;
+        let mut t = String::from("<xs:schema xmlns:xs=\"http://www.w3.org/2001/XMLSchema\" xmlns:t=\"urn:example:tree\" targetNamespace=\"urn:example:tree\" elementFormDefault=\"qualified\">");
+        for i in 0..levels {
+            let first = if label == "group" {
+                format!("<xs:element name=\"L{i}\"><xs:complexType><xs:sequence><xs:group ref=\"t:L{0}\"/><xs:element ref=\"t:L{0}\"/></xs:sequence></xs:complexType></xs:element>", i + 1)
+            } else {
+                format!("<xs:element name=\"L{i}\"><xs:complexType><xs:sequence><xs:element name=\"b\" type=\"t:L{0}\"/><xs:element ref=\"t:L{0}\"/></xs:sequence></xs:complexType></xs:element>", i + 1)
+            };
+            t += &first;
+            t += &second_open.replace("{i}", &i.to_string()).replace("{n}", &(i + 1).to_string());
+            t += second_close;
+        }
+        t += &format!("<xs:element name=\"L{levels}\" type=\"xs:string\"/>");
+        t += &if label == "group" {
+            format!("<xs:group name=\"L{levels}\"><xs:sequence><xs:element name=\"Leaf\" type=\"xs:string\"/></xs:sequence></xs:group>")
+        } else {
+            format!("<xs:complexType name=\"L{levels}\"><xs:sequence><xs:element name=\"Leaf\" type=\"xs:string\"/></xs:sequence></xs:complexType>")
+        };
+        t += "</xs:schema>";
+        v.push((format!("edge/40-levels-of-same-named-element-and-{label}-forward"), FileSet::single("pairs.xsd", &t)));
+    }
+    // a long chain of forward element references (one per level)
+    {
+        let n = 2500;
+        let mut t = String::from("<xs:schema xmlns:xs=\"http://www.w3.org/2001/XMLSchema\" xmlns:t=\"urn:e\" targetNamespace=\"urn:e\">");
+        for i in 0..n {
+            t += &format!("<xs:element name=\"e{i}\"><xs:complexType><xs:sequence><xs:element ref=\"t:e{0}\"/></xs:sequence></xs:complexType></xs:element>", i + 1);
+        }
+        t += &format!("<xs:element name=\"e{n}\" type=\"xs:string\"/></xs:schema>");
+        v.push(("edge/2500-long-forward-element-reference-chain".to_string(), FileSet::single("chain.xsd", &t)));
+    }
     // layered shared imports: both files of layer i import both files of layer i+1
     {
         let layers = 30;
@@ -491,7 +535,7 @@ pub fn run(tier: Tier) -> i32 {
         "C13",
         tier,
         "exploration",
-        "quick and thorough: 1-3 structure-aware mutations (delete/duplicate/swap/unwrap an element, drop/blank an attribute, retarget a QName to another one / a dangling one / the enclosing component itself, swap tag names, splice a subtree from another file, rename to keywords and odd names, duplicate names, retarget imports/namespaces/addresses, truncate, inject non-XML) applied by proptest to the repository's schemas (below 300 KB in quick), generated WSDLs, import graphs and an extension/list/union/group schema; plus fixed API-edge probes. Every generation (read_xml then write_xml) runs in an isolated worker process with a watchdog (10 s + 1 s per 100 KB, confirmed twice at 3x). Oracle: outcome class is returned-Ok or returned-Err; never panic, signal or timeout. Non-trivial: the mutated start file is still well-formed XML with a schema/definitions root (so the reader proper is reached); distinct by (applied mutation kinds, base document, outcome class, file-set hash). Thorough adds a coverage-guided libFuzzer campaign (/verif/fuzz, fork mode, 16 jobs, wall budget in extra.fuzz) seeded with the same corpus; its artifacts and its final corpus are re-run in the worker, which alone decides (classes fuzz.*).",
+        "quick and thorough: 1-3 structure-aware mutations (delete/duplicate/swap/unwrap an element, drop/blank an attribute, retarget a QName to another one / a dangling one / the enclosing component itself, swap tag names, splice a subtree from another file, rename to keywords and odd names, duplicate names, retarget imports/namespaces/addresses, truncate, inject non-XML) applied by proptest to the repository's schemas (below 300 KB in quick), generated WSDLs, import graphs and an extension/list/union/group schema; plus fixed API-edge probes (colliding namespaces, deep nesting, long, doubled, foreign-namespace and same-named-pair forward reference chains, layered imports, empty and unregistered files). Every generation (read_xml then write_xml) runs in an isolated worker process with a watchdog (10 s + 1 s per 100 KB, confirmed twice at 3x). Oracle: outcome class is returned-Ok or returned-Err; never panic, signal or timeout. Non-trivial: the mutated start file is still well-formed XML with a schema/definitions root (so the reader proper is reached); distinct by (applied mutation kinds, base document, outcome class, file-set hash). Thorough adds a coverage-guided libFuzzer campaign (/verif/fuzz, fork mode, 16 jobs, wall budget in extra.fuzz) seeded with the same corpus; its artifacts and its final corpus are re-run in the worker, which alone decides (classes fuzz.*).",
     );
     ev.assume("stack size of the generating thread is 8 MiB (what a CLI main thread has)");
     let bases = seed_corpus(tier);
